@@ -102,6 +102,9 @@ def gen_case(rng):
                         [dsp["axes"][q][0][rng.randrange(len(dsp["axes"][q][0]))]] for q in used}
         c["form"] = form
         c["spelling"] = rng.choice(['dict', 'axis']) if (what == 'take' and form != 'multi') else 'dict'
+        if what == 'take' and rng.random() < 0.35:
+            ks_ = list(dsp["vars"])
+            c["names"] = rng.sample(ks_, rng.randint(1, len(ks_)))          # only these variables, the index still refers to the dataset's dimensions
     elif what in ('ix', 'isel', 'take_pos'):
         form = rng.choice(['scalar', 'list', 'slice'])
         c["idx"] = {d: rng.randrange(n) if form == 'scalar' else [rng.randrange(n) for _ in range(rng.randint(1, 3))] if form == 'list'
@@ -239,12 +242,13 @@ def check(case, ctx):
         attrs_carried = True
         pos = what in ('ix', 'isel', 'take_pos')
         if what == 'take':
+            nkw = {"names": list(case["names"])} if case.get("names") else {}
             if case.get("spelling") == 'axis':
-                label = "ds.take(indices=%s, axis=%r)" % (codec.short(idx[d], 60), axis)
-                fn = lambda: ds.take(indices=idx[d], axis=axis)
+                label = "ds.take(%sindices=%s, axis=%r)" % ("names=%r, " % case["names"] if nkw else "", codec.short(idx[d], 60), axis)
+                fn = lambda: ds.take(indices=idx[d], axis=axis, **nkw)
             else:
-                label = "ds.take(indices=%s)" % codec.short(idx, 100)
-                fn = lambda: ds.take(indices=dict(idx))
+                label = "ds.take(%sindices=%s)" % ("names=%r, " % case["names"] if nkw else "", codec.short(idx, 100))
+                fn = lambda: ds.take(indices=dict(idx), **nkw)
         elif what == 'loc':
             label = "ds.loc[%s]" % codec.short(idx, 100)
             fn = lambda: ds.loc[dict(idx)]
@@ -407,6 +411,9 @@ def check(case, ctx):
     if not common.is_ds(res):
         ctx.v(ID, "not-dataset", "%s returned %s" % (label, type(res).__name__))
         return klass
+    if what == 'take' and case.get("names"):
+        ctx.outcomes['take-with-names'] += 1
+        exp = {k: exp[k] for k in case["names"]}
     if set(res.keys()) != set(exp.keys()):
         ctx.v(ID, "keys", "%s: variables %r, expected %r" % (label, sorted(res.keys()), sorted(exp.keys())))
         return klass
